@@ -108,6 +108,8 @@ def collect(prop, mod):
         patch = os.path.join(d, "patch.diff")
         if os.path.exists(meta_p) and os.path.exists(patch):
             meta = json.load(open(meta_p))
+            if meta.get("obsolete"):
+                continue  # no longer a defect on today's tree (a later fix removed the hazard); kept for the record
             items.append(("seeded", os.path.basename(d), {"patch": patch, "detected": meta.get("detected")}))
     kfp = os.path.join(VERIF, "known_findings.json")
     if os.path.exists(kfp):
